@@ -147,7 +147,7 @@ func evalCreds(c *Ctx, tok string, seedKP nkeys.KeyPair, nl string, lead string)
 }
 
 func runC15(c *Ctx) {
-	c.Res.Rule = "user tokens from ~150 to ~4000 characters, and every fifteenth one very long (about 64 KiB to 130 KiB) (every base64url character class occurs) x user / account / operator seeds x LF / CRLF x leading blank lines: FormatUserConfig -> ParseDecoratedJWT / ParseDecoratedNKey / ParseDecoratedUserNKey must return the same token text and a key pair with the same seed and public key; DecorateJWT of every claim kind parses back unchanged, also when the returned slice is kept and parsed again after later DecorateJWT / FormatUserConfig calls; a bare token parses to itself; non-user tokens / seeds are refused; the user-only key parser refuses operator and account seeds, also in indented (spaces / tabs), CRLF and bare-seed renderings and inside a full credentials file. The model's hand matcher is compared with Go's regexp on structured adversarial text (dash runs of 2/3/5/6, dashes inside token lines, missing final newline, CR placement). non-trivial = distinct texts."
+	c.Res.Rule = "user tokens from ~150 to ~4000 characters, and every fifteenth one very long (about 64 KiB to 130 KiB) (every base64url character class occurs) x user / account / operator seeds x LF / CRLF x leading blank lines (and seeds handed over with surrounding blanks, tabs or line ends): FormatUserConfig -> ParseDecoratedJWT / ParseDecoratedNKey / ParseDecoratedUserNKey must return the same token text and a key pair with the same seed and public key; DecorateJWT of every claim kind parses back unchanged, also when the returned slice is kept and parsed again after later DecorateJWT / FormatUserConfig calls; a bare token parses to itself; non-user tokens / seeds are refused; the user-only key parser refuses operator and account seeds, also in indented (spaces / tabs), CRLF and bare-seed renderings and inside a full credentials file. The model's hand matcher is compared with Go's regexp on structured adversarial text (dash runs of 2/3/5/6, dashes inside token lines, missing final newline, CR placement). non-trivial = distinct texts."
 	// ---- round trips
 	for i := 0; i < c.N(60, 3000); i++ {
 		u := jwt.NewUserClaims(pubOf(kpN('U', c.R.Intn(4))))
@@ -155,7 +155,7 @@ func runC15(c *Ctx) {
 		u.Name = strings.Repeat(c.R.Pick(strAlphabet)+"x", c.R.Intn(40))
 		nsub := c.R.Intn(60)
 		if i%15 == 7 {
-			// very long tokens: past 64 KiB (line-oriented readers with a fixed buffer) 
+			// very long tokens: past 64 KiB (line-oriented readers with a fixed buffer)
 			nsub = []int{1400, 1500, 2800}[c.R.Intn(3)]
 			c.Count("very-long-token")
 		}
@@ -230,6 +230,60 @@ func runC15(c *Ctx) {
 			c.Violate("token-roundtrip", "a bare token does not parse to itself", c15Replay{"bare", tok, tok, ""})
 		}
 		c.Count("decorate:" + kind)
+	}
+	// seeds handed over with surrounding whitespace (as read from a file): what is formatted must still parse back
+	// to the key pair of that seed
+	{
+		utok, _ := jwt.NewUserClaims(pubOf(kpN('U', 2))).Encode(kpN('A', 1))
+		seed := string(seedOf(kpN('U', 2)))
+		for _, pre := range []string{"", " ", "\t", "  \t"} {
+			for _, post := range []string{"", " ", "\t", "\n", "\r\n", " \n"} {
+				if pre == "" && post == "" {
+					continue
+				}
+				padded := []byte(pre + seed + post)
+				for _, how := range []string{"FormatUserConfig", "DecorateSeed"} {
+					var out []byte
+					var err error
+					pn := safeCreds(func() {
+						if how == "FormatUserConfig" {
+							out, err = jwt.FormatUserConfig(utok, padded)
+						} else {
+							out, err = jwt.DecorateSeed(padded)
+						}
+					})
+					rp := c15Replay{"padded-seed", string(out), utok, string(padded)}
+					if pn != "" {
+						c.Violate("panic", how+" panicked on a padded seed: "+pn, rp)
+						continue
+					}
+					c.Count("padded-seed:" + how)
+					if err != nil {
+						continue // refusing a padded seed is allowed; writing a file that does not parse back is not
+					}
+					nls := []string{"\n", "\r\n"}
+					if how == "DecorateSeed" {
+						nls = []string{"\n"} // the property speaks of CRLF renderings of the credentials file only
+					}
+					for _, nl := range nls {
+						text := strings.ReplaceAll(string(out), "\n", nl)
+						var kp2 nkeys.KeyPair
+						var e2 error
+						if p2 := safeCreds(func() { kp2, e2 = jwt.ParseDecoratedNKey([]byte(text)) }); p2 != "" {
+							c.Violate("panic", "ParseDecoratedNKey panicked: "+p2, rp)
+							continue
+						}
+						if e2 != nil {
+							c.Violate("seed-roundtrip", fmt.Sprintf("%s accepted a seed with surrounding whitespace (%q ... %q) but its output does not parse back to a key pair: %v", how, pre, post, e2), rp)
+							continue
+						}
+						if s2, _ := kp2.Seed(); string(s2) != seed {
+							c.Violate("seed-roundtrip", fmt.Sprintf("%s of a seed with surrounding whitespace parses back to a different seed (%q)", how, s2), rp)
+						}
+					}
+				}
+			}
+		}
 	}
 	// user-only key parser refuses operator and account seeds
 	for _, role := range []byte{'O', 'A', 'U'} {
